@@ -5,7 +5,23 @@ import os
 import vlib
 
 
+SASL_KEEP = {"Init", "ApiCall", "ApiRet", "PHeader", "PSasl", "PFrame", "PRaw", "EHeader", "ESasl", "EFrame", "EEof", "PEof", "End", "Spin", "Mark"}
+
+
+def handshake_stage(pid, tier, replay, verdict):
+    """A live listener behind a SASL layer: the successful exchanges of SaslGen.tla, played once frame by frame and once with everything the
+    peer has to say (SASL header, init, AMQP header, open) written in one piece.  Judged by SaslTrace.tla (C06_SplitIndependent)."""
+    from props import endpoint
+    gens = [("sasl/SaslGen", "sasl/SaslGen_lp.cfg"), ("sasl/SaslGen", "sasl/SaslGen_la.cfg")]
+    return endpoint.run(pid, tier, replay, ("C06_",), [], gens, "", trace_spec="sasl/SaslTrace", keep=lambda r: r["ev"] in SASL_KEEP,
+                        verdict=verdict, finish=False)
+
+
 def check(pid, tier, replay):
+    if replay and "script" in json.load(open(replay)).get("detail", {}):
+        verdict = vlib.Verdict(pid, tier)
+        verdict.finish(handshake_stage(pid, tier, replay, verdict))
+        return
     wd = vlib.workdir("framing-" + tier)
     vlib.build_harness()
     deep = tier == "thorough"
@@ -69,4 +85,13 @@ def check(pid, tier, replay):
         "assumptions": ["frame header parser, performative extent and payload pattern matcher of the harness are trusted",
                         "the performative given to the sink is obtained by decoding the spec's encoding (decoder correctness is C05)"],
     }
+    if not replay:
+        ev2 = handshake_stage(pid, tier, None, verdict)
+        c, c2 = ev["coverage"], ev2["coverage"]
+        c["states"] += c2["states"]
+        c["transitions"] += c2["transitions"]
+        c["traces_validated_against_impl"] += c2["traces_validated_against_impl"]
+        c["evaluations"] += c2["evaluations"]
+        c["handshake_scripts"] = c2["traces_validated_against_impl"]
+        c["rule"] += "; plus the successful SASL exchanges of SaslGen.tla against a live listener, frame by frame and with the whole client side written in one piece"
     verdict.finish(ev)
